@@ -134,6 +134,73 @@ func replaced(toks []string, i int, t string) []string {
 	return out
 }
 
+// numericVersionLabels are version labels that equal 3.0 / 3.1 only for a parser that reads the two
+// fields as numbers: wrapped at 2^8, 2^16, 2^32, 2^64, signs, exponents, radix prefixes, leading or
+// trailing zeros, digit separators, other digit scripts.
+var numericVersionLabels = func() []string {
+	var out []string
+	for _, w := range []string{"256", "65536", "4294967296", "18446744073709551616", "36893488147419103232", "340282366920938463463374607431768211456"} {
+		for _, minor := range []string{"0", "1"} {
+			out = append(out, "3."+addDec(w, minor), addDec(w, "3")+"."+minor)
+		}
+	}
+	for _, minor := range []string{"0", "1"} {
+		out = append(out, "3."+minor+"e0", "3."+minor+"E0", "0x3."+minor, "3.0x"+minor, "+3."+minor, "3.+"+minor, "-3."+minor, "3.-"+minor, "3."+minor+".0", "3.0"+minor, "3.00"+minor,
+			"03."+minor, "3_0."+minor, "3."+minor+"_0", "3."+minor+"f", "3."+minor+"0", "3."+minor+"00", "3."+minor+"000000000000000000000", "3.0000000000000000000"+minor, "0b11."+minor, "0o3."+minor,
+			"3."+minor+"p0", "3e0."+minor, "３."+minor, "3．"+minor, "3."+string('０'+rune(minor[0]-'0')), "٣."+minor, "3 ."+minor, "3. "+minor, "3."+minor+"\x00", "3."+minor+"%00", "III."+minor)
+	}
+	return out
+}()
+
+// addDec adds two non-negative decimal numerals.
+func addDec(a, b string) string {
+	var out []byte
+	carry := 0
+	for i, j := len(a)-1, len(b)-1; i >= 0 || j >= 0 || carry > 0; i, j = i-1, j-1 {
+		d := carry
+		if i >= 0 {
+			d += int(a[i] - '0')
+		}
+		if j >= 0 {
+			d += int(b[j] - '0')
+		}
+		out = append([]byte{byte('0' + d%10)}, out...)
+		carry = d / 10
+	}
+	return string(out)
+}
+
+// foreignNotations renders a complete vector the way other tools, feeds and databases write it (none of
+// these is the library's language): brackets and quotes, key=value, scheme-like prefixes, and the score
+// written in front of, behind or inside the vector - every tenth from 0.0 to 10.0, so that the vector's own
+// score is among them.
+func foreignNotations(vec string, v2 bool) []string {
+	out := []string{"(" + vec + ")", "[" + vec + "]", "{" + vec + "}", "<" + vec + ">", "\"" + vec + "\"", "'" + vec + "'", "`" + vec + "`", "vector=" + vec, "vector:" + vec, "cvss=" + vec,
+		"CVSS#" + vec, "#" + vec, vec + "#", vec + ";", vec + ",", vec + ".", "CVSS:" + vec, "cvss:" + vec, vec + " (" + vec + ")", vec + "\r\n", "\r\n" + vec, vec + "\x00", "\t" + vec, vec + "\t"}
+	if v2 {
+		out = append(out, "CVSS2#"+vec, "cvss2="+vec, "CVSSv2#"+vec, "v2/"+vec, "2.0/"+vec, "CVSS:2.0/"+vec, "CVSS:2/"+vec, "("+vec+")/2.0", "AV:N/AC:L/Au:N/C:P/I:P/A:P/"+vec)
+	} else {
+		body := strings.TrimPrefix(strings.TrimPrefix(vec, "CVSS:3.0/"), "CVSS:3.1/")
+		out = append(out, "CVSS3#"+body, "cvss3="+body, "CVSSv3#"+body, "v3/"+body, "3.1/"+body, "CVSS:3/"+body, "CVSS:3.x/"+body, vec+"/CVSS:3.1", vec+"/"+vec)
+	}
+	for t := 0; t <= 100; t++ {
+		sc := fmt.Sprintf("%d.%d", t/10, t%10)
+		out = append(out, sc+"/"+vec, vec+"/"+sc)
+		if t%10 == 0 {
+			out = append(out, fmt.Sprint(t/10)+"/"+vec)
+		}
+		if t%7 == 3 {
+			out = append(out, sc+" "+vec, vec+" "+sc, sc+":"+vec, vec+"="+sc, "("+sc+") "+vec, vec+" ("+sc+")")
+		}
+		if !v2 {
+			if p, body, ok := strings.Cut(vec, "/"); ok && t%3 == 0 {
+				out = append(out, p+"/"+sc+"/"+body)
+			}
+		}
+	}
+	return out
+}
+
 var prefixCatalogue = []string{"CVSS:1.0", "CVSS:2.0", "CVSS:3", "CVSS:3.2", "CVSS:3.10", "CVSS:4.0", "cvss:3.1", "CVSS3.1", "CVSS:3.1:", "", " CVSS:3.1", "CVSS:3.1 ",
 	"CVSS:", "CVSS", ":3.1", "CVSS:3.0.", "CVSS::3.1", "CVSS:03.1", "CVSS:3.1\n", "XXX:3.1", "CVSS:3,1", "CVSS:٣.١"}
 
@@ -209,6 +276,12 @@ func tokenEdits3(w *W, prefix string, toks []string, m *strMeta, visit strVisito
 	}
 	for _, p := range prefixCatalogue {
 		visit(w, join3(p, toks), m)
+	}
+	for _, l := range numericVersionLabels {
+		visit(w, join3("CVSS:"+l, toks), m)
+	}
+	for _, s := range foreignNotations(join3(prefix, toks), false) {
+		visit(w, s, m)
 	}
 }
 
@@ -369,6 +442,9 @@ func tokenEdits2(w *W, toks []string, m *strMeta, visit strVisitor) {
 	body := j2(toks)
 	for _, s := range []string{"/" + body, body + "/", "//" + body, body + "//", "CVSS:2.0/" + body, "CVSS:3.1/" + body, "(" + body + ")", "(" + body, body + ")", " " + body, body + " ", body + "\n",
 		strings.ReplaceAll(body, "/", "//"), strings.ReplaceAll(body, "/", " "), strings.ReplaceAll(body, "/", "\\"), strings.ToLower(body), strings.ToUpper(body), strings.ReplaceAll(body, ":", "::"), "\ufeff" + body, ""} {
+		visit(w, s, m)
+	}
+	for _, s := range foreignNotations(body, true) {
 		visit(w, s, m)
 	}
 	// whole-group relocations
